@@ -17,4 +17,11 @@ def build(E):
     spec.targets = [t for t in spec.targets if t[0].endswith(".connection_made")]
     E._client_env = env
     client_session.add_targets(E, spec, "C11")
+    # C11's argument rests on what verify() answers ("valid" only for an absent or equal pin, "changed" otherwise - nothing else):
+    # the bodies of TOFUDatabase.verify / trust are checked in this run too (their contracts are the ones the session assumes)
+    from contracts import tofu_store
+    sess_keep = spec.keep
+    tofu_store.add_targets(E, spec, "C11", names=("verify", "trust"))
+    TOFU = "nauyaca.security.tofu:TOFUDatabase."
+    spec.keep = lambda name: True if name.startswith(TOFU) else (sess_keep(name) if sess_keep else True)
     return spec
